@@ -103,13 +103,13 @@ impl TCheck for C01 {
     }
     fn works(&self, tier: Tier) -> u64 {
         match tier {
-            Tier::Quick => 160 + N_HEAVY,
-            Tier::Thorough => 2400 + N_HEAVY,
+            Tier::Quick => 480 + N_HEAVY,
+            Tier::Thorough => 8000 + N_HEAVY,
         }
     }
     fn scheds(&self, tier: Tier) -> u64 {
         match tier {
-            Tier::Quick => 4,
+            Tier::Quick => 6,
             Tier::Thorough => 32,
         }
     }
